@@ -3,7 +3,7 @@
 cd /verif
 R=$1; shift
 for p in "$@"; do
-  for k in 1 2 3; do
+  for k in 1 2 3 4; do
     src=/tmp/r$R/$p/out/m$k; dst=seeded/$p-r${R}m$k
     [ -f $src/patch.diff ] || { echo "$p m$k: no patch"; continue; }
     mkdir -p $dst; cp $src/patch.diff $src/README.md $dst/ 2>/dev/null
